@@ -3,6 +3,7 @@ import RsModel.Lemmas.PosComb
 import RsModel.Lemmas.CombInner
 import RsModel.Lemmas.ModeLeaves
 import RsModel.Lemmas.CombTables
+import RsModel.Lemmas.CombCompose
 /-!
 # C09 — combined source maps compose outer and inner attribution
 (the pass-through and removal branches; the composition through the inner map is tied by correspondence)
@@ -311,5 +312,55 @@ example : annS (streamCombined [97, 98, 99] ⟨[65, 65, 65, 65, 44, 67, 67, 65, 
       [105, 110, 46, 106, 115] (some [104, 101, 108, 108, 111, 32, 119, 111, 114, 108, 100])
       ⟨[75, 65, 65, 65], [[122, 46, 106, 115]], [], [], none, none, none⟩ false ⟨true, false⟩).evs
     = [[97, 98, 99], [105, 110, 46, 106, 115], [122, 46, 106, 115]] := by decide
+
+/-! ## composed chunks, for the whole stream, in terms of the inner map -/
+
+/-- **C09, composition, whole stream (columns = true, the stream an outside caller obtains).**  `Tin` is the text the inner map is
+streamed over (the supplied original source, else the content the outer map lists for the inner source); the inner source is listed
+once among the outer map's sources (`OnceInner`); both maps reference existing entries of their own tables; the inner map is
+sorted with every mapped segment on a character of `Tin`.  Every chunk of the combined stream comes from one chunk of the outer
+map's stream, with the same text at the same generated position, and when that outer chunk points into the inner source at the
+position of a character of `Tin`:
+* where the inner map assigns `o'` (greatest segment at or before the position on its line), a mapped delivered chunk names —
+  through the announcements of the combined stream — the file the inner map's own stream announces under `o'.src`, at `o'`'s
+  original line, at `o'`'s column or that column plus an offset into the segment (smaller than the outer column);
+* where the inner map assigns nothing, the chunk is unmapped when removal of the original source is requested, and otherwise
+  names the inner source itself at the outer chunk's own line and column.
+Together with `c09_tables_pass` (all other chunks pass through unchanged) and C03-T3 for the combinator (`map()` = this stream) this is
+the property's attribution clause; the content clause and the name rule are decided by the oracle. -/
+theorem c09_stream_compose (t : Text) (sm : SMap) (n : Text) (os : Option Text) (im : SMap) (rm : Bool) (Tin : Text)
+    (h1 : MapIdxOK sm) (h2 : MapIdxOK im) (honce : OnceInner n (smSourceEvs sm ++ smNameEvs sm))
+    (hTin : ∀ k c, Ev.source k n c ∈ smSourceEvs sm ++ smNameEvs sm → (os.or c).getD [] = Tin)
+    (ha : IsAscii Tin) (hl : Tin.length ≤ USIZE_MAX) (hs : sortedFrom 1 0 (decode im.mappings))
+    (hseg : ∀ x ∈ decode im.mappings, SegOK (splitLines Tin) (adv startPos Tin).line (adv startPos Tin).col x) :
+    ∀ t' mm, Ev.chunk t' mm ∈ (streamCombined t sm n os im rm ⟨true, false⟩).evs →
+      ∃ m, Ev.chunk t' m ∈ (streamSM t sm ⟨true, false⟩).evs ∧ mm.gl = m.gl ∧ mm.gc = m.gc ∧
+        ∀ a, m.orig = some a → (annS (streamSM t sm ⟨true, false⟩).evs)[a.src]? = some n →
+          ∀ j, j < Tin.length → adv startPos (Tin.take j) = ⟨a.line, a.col⟩ →
+            (∀ o', lookupCols (decode im.mappings) a.line a.col = some o' → ∀ y, mm.orig = some y →
+                (annS (streamCombined t sm n os im rm ⟨true, false⟩).evs)[y.src]? = (annS (streamSM Tin im ⟨true, false⟩).evs)[o'.src]?
+                ∧ o'.src < (annS (streamSM Tin im ⟨true, false⟩).evs).length
+                ∧ y.line = o'.line ∧ (y.col = o'.col ∨ ∃ g, g < a.col ∧ y.col = o'.col + (a.col - g)))
+            ∧ (lookupCols (decode im.mappings) a.line a.col = none →
+                (rm = true → mm.orig = none)
+                ∧ ∀ y, mm.orig = some y → (annS (streamCombined t sm n os im rm ⟨true, false⟩).evs)[y.src]? = some n ∧ y.line = a.line ∧ y.col = a.col) :=
+  streamCombined_compose t sm n os im rm Tin h1 h2 honce hTin ha hl hs hseg
+
+/-- non-vacuity: the hypotheses hold for the witness of F15 (outer sources `abc`, `in.js`; inner map `KAAA` over `"hello world"`) -/
+example : OnceInner [105, 110, 46, 106, 115]
+      (smSourceEvs ⟨[65, 65, 65, 65, 44, 67, 67, 65, 65, 44, 67, 65, 65, 75], [[97, 98, 99], [105, 110, 46, 106, 115]], [], [], none, none, none⟩
+        ++ smNameEvs ⟨[65, 65, 65, 65, 44, 67, 67, 65, 65, 44, 67, 65, 65, 75], [[97, 98, 99], [105, 110, 46, 106, 115]], [], [], none, none, none⟩)
+    ∧ sortedFrom 1 0 (decode [75, 65, 65, 65])
+    ∧ (∀ x ∈ decode [75, 65, 65, 65], SegOK (splitLines [104, 101, 108, 108, 111, 32, 119, 111, 114, 108, 100])
+        (adv startPos [104, 101, 108, 108, 111, 32, 119, 111, 114, 108, 100]).line (adv startPos [104, 101, 108, 108, 111, 32, 119, 111, 114, 108, 100]).col x) := by
+  have hdec : decode [75, 65, 65, 65] = [⟨1, 5, some ⟨0, 1, 0, none⟩⟩] := by decide
+  refine ⟨?_, ?_, ?_⟩
+  · simp [smSourceEvs, smNameEvs, OnceInner, List.range, List.range.loop, applyRoot]
+  · rw [hdec]; exact ⟨Or.inr ⟨rfl, by decide⟩, trivial⟩
+  · intro x hx
+    rw [hdec] at hx
+    simp only [List.mem_singleton] at hx
+    subst hx
+    exact ⟨⟨by decide, fun _ => by decide⟩, fun _ => by decide, by decide⟩
 
 end Rs
